@@ -121,7 +121,10 @@ pub fn reference_transcode(raw: &[u8], label: Option<Enc>, sniff: bool) -> Vec<u
     }
     match label {
         None => raw.to_vec(),
-        Some(Enc::Utf8) => raw.to_vec(),
+        Some(Enc::Utf8) => {
+            let (s, _) = encoding_rs::UTF_8.decode_without_bom_handling(raw);
+            s.into_owned().into_bytes()
+        }
         Some(Enc::Utf16Le) => decode_utf16(raw, true),
         Some(Enc::Utf16Be) => decode_utf16(raw, false),
         Some(Enc::Latin1) => {
@@ -337,10 +340,24 @@ pub fn gen_case(rng: &mut Rng) -> Case17 {
             (raw, None, false)
         }
         _ => {
-            // explicit utf-8 label, with or without BOM
+            // explicit utf-8 label, with or without BOM; the label asks for
+            // a transcoding like any other (malformed bytes become U+FFFD),
+            // a mark means UTF-8 passed through
             let t = gen_text(rng, WORDS_ANY, nlines, crlf);
-            let mut raw = if rng.bool() { b"\xef\xbb\xbf".to_vec() } else { vec![] };
+            let bom = rng.bool();
+            let mut raw = if bom { b"\xef\xbb\xbf".to_vec() } else { vec![] };
             raw.extend_from_slice(t.as_bytes());
+            if malformed && !bom && !raw.is_empty() {
+                for _ in 0..rng.range(1, 3) {
+                    let i = rng.below(raw.len());
+                    if raw[i] != b'\n' && raw[i] != b'\r' {
+                        raw[i] = rng.pick(&[0xffu8, 0x80, 0xc3, 0xf0]);
+                    }
+                }
+                if raw.starts_with(b"\xff\xfe") || raw.starts_with(b"\xfe\xff") || raw.starts_with(b"\xef\xbb\xbf") {
+                    raw.insert(0, b' ');
+                }
+            }
             (raw, Some(Enc::Utf8), true)
         }
     };
